@@ -1,5 +1,5 @@
 (* C04 — elision '...' matches any run of elements and reproduces it unchanged. *)
-From GP Require Import Tree Meta Match Replace ListMatch MatchFacts MatchComplete ListMemo MatchFrame.
+From GP Require Import Tree Meta Match Replace ListMatch MatchFacts MatchComplete ListMemo MatchFrame DotsSole.
 From Coq Require Import Lia.
 
 (* [Sol ps ts d rs d']: the list ts decomposes, in order, into the explicit elements of the
@@ -116,6 +116,29 @@ Proof.
 Qed.
 Print Assumptions C04_assoc_is_closest_before.
 
+(* "... or is the only '...' on each side": the '+' elision is tied to the LAST '-' elision that is not after
+   it in the patch - with one explicit elision on each side, '-' first, to that one, wherever on the '+'
+   side it stands (the run moves) *)
+Theorem C04_tied_to_the_last_elision_before : forall lead lhs l r,
+  In l lhs -> dp_id l <> lead -> dpos_le l r = true ->
+  (forall x, In x lhs -> dpos_le x r = true -> dpos_le x l = true) ->
+  (forall x, In x lhs -> same_place x l = true -> x = l) ->
+  pick lead lhs r = Some l.
+Proof. exact pick_last_before. Qed.
+Print Assumptions C04_tied_to_the_last_elision_before.
+
+(* ... and written BEFORE every explicit '-' elision it is tied to nothing: the change does not compile *)
+Theorem C04_elision_before_every_minus_elision_is_rejected : forall lead lhs rhs r,
+  In r rhs ->
+  (forall x, In x lhs -> dp_id x <> lead -> dpos_le x r = false) ->
+  (forall x, In x lhs -> dp_id x = lead -> same_place x r = false) ->
+  connect_dots lead lhs rhs = None.
+Proof.
+  intros lead lhs rhs r Hin H1 H2. apply C04_assoc_error_not_silent. exists r. split; [exact Hin|].
+  exact (pick_before_all_explicit lead lhs r H1 H2).
+Qed.
+Print Assumptions C04_elision_before_every_minus_elision_is_rejected.
+
 (* the layout of repo fix e818090: '+ ...' on line 2 ahead of the only explicit '- ...' on line 4 of a
    statement patch whose implicit leading elision (id 1) is at line 1, column 1: rejected *)
 Example C04_plus_elision_before_minus_elision_ex :
@@ -145,6 +168,25 @@ Example C04_nested_nonlinear_refuted :
   mtch mk pat tgt d0 = None /\
   (exists d, mtch mk pat tgt with_b = Some d /\ assoc 8 (d_mv d) = assoc 8 (d_mv with_b)).
 Proof. vm_compute. split; [reflexivity|eexists; split; reflexivity]. Qed.
+
+(* ---- a second limit, refuted at full strength (known finding F54) ----
+   The result list of a function is a *ast.FieldList: opening parenthesis, fields, closing parenthesis.
+   A pattern list "(...)" has its parentheses; a result list written without them ("func r() error") has
+   none, one not written at all ("func r()") is a nil pointer - and the matcher compares these fields
+   one by one.  So the pattern matches "(error)" and not "error", although both are the list [error]. *)
+Example C04_result_list_without_parentheses_refuted :
+  let mk := fun _ : N => @None mkind in
+  let id n := Iface T_ast_Expr (Ptr T_P_ast_Ident (Struct T_ast_Ident [Pos true; Atom T_string n; Nil T_P_ast_Object])) in
+  let dots i := Iface T_ast_Expr (Ptr T_P_pgo_Dots (Struct T_pgo_Dots [Nil T_ast_Expr; Atom T_pgo_DotsPos i])) in
+  let field ty := Ptr T_P_ast_Field (Struct T_ast_Field [Nil T_P_ast_CommentGroup; Slice T_S_P_ast_Ident []; ty;
+                                                         Nil T_P_ast_BasicLit; Nil T_P_ast_CommentGroup]) in
+  let flist paren fs := Ptr T_P_ast_FieldList (Struct T_ast_FieldList [Pos paren; Slice T_S_P_ast_Field fs; Pos paren]) in
+  (* atom 7 = error;  pattern "(...)" *)
+  let pat := flist true [field (dots 1)] in
+  (exists d, mtch mk pat (flist true [field (id 7)]) d0 = Some d) /\      (* func r() (error) *)
+  mtch mk pat (flist false [field (id 7)]) d0 = None /\                   (* func r() error   *)
+  mtch mk pat (Nil T_P_ast_FieldList) d0 = None.                          (* func r()         *)
+Proof. vm_compute. split; [eexists; reflexivity|split; reflexivity]. Qed.
 
 Example C04_ex :
   let mk := fun _ : N => @None mkind in
